@@ -100,6 +100,19 @@ def get_ranges(headervalue, content_length):
     if not headervalue:
         return None
 
+    # int() does not convert a digit string of any length (ValueError beyond
+    # 4300 digits), and a client may send one
+    def position(digits):
+        # every position behind the end is as good as any other
+        digits = digits.lstrip('0') or '0'
+        if len(digits) > len(str(content_length)):
+            return content_length
+        return int(digits)
+
+    def before(a, b):
+        a, b = a.lstrip('0'), b.lstrip('0')
+        return (len(a), a) < (len(b), b)
+
     result = []
     bytesunit, _, byteranges = headervalue.partition('=')
     if bytesunit.strip().lower() != 'bytes' or not all(byte_range_pattern.match(r) for r in byteranges.split(',')):
@@ -110,11 +123,11 @@ def get_ranges(headervalue, content_length):
         start, stop = (x.strip() for x in brange.split('-', 1))
         if start:
             if not stop:
-                stop = content_length - 1
-            elif int(stop) < int(start):
+                stop = str(max(content_length - 1, 0))
+            elif before(stop, start):
                 # syntactically invalid wherever it starts: ignore the header (see below)
                 return None
-            start, stop = list(map(int, (start, stop)))
+            start, stop = list(map(position, (start, stop)))
             if start >= content_length:
                 # From rfc 2616 sec 14.16:
                 # "If the server receives a request (other than one
@@ -143,7 +156,7 @@ def get_ranges(headervalue, content_length):
                 # See rfc quote above.
                 return None
             # Negative subscript (last N bytes, the whole entity if it is shorter)
-            start = max(content_length - int(stop), 0)
+            start = max(content_length - position(stop), 0)
             if start >= content_length:
                 # a suffix of zero bytes (or of an empty entity) is unsatisfiable
                 continue
